@@ -1060,19 +1060,33 @@ def gen_theorems(g, methods, specs, nmods=14):
 
 
 def gen_addr_theorems(g, methods, specs, nmods=13):
-    """methods taking one register and one Address -> relative statement `<m>_addr` (AddrOkR / AddrOkX, proved by a
-    finite split with the address bytes symbolic) + corollaries for Address::offset / index / rip"""
+    """methods taking registers and one Address (`ra`, `ar`, `xa`, `ax`, `xxa`) -> relative statement `<m>_addr`
+    (AddrOkR / AddrOkX / AddrOkXX: a finite split over registers, REX.X/REX.B and `has_avx2` with the address bytes and
+    length left opaque, X64/AddrFast.lean) + corollaries for Address::offset / index / array / rip and one instance."""
     items = []
+    skipped = {}
     for m in methods:
-        if m["admin"] or m["sig"] not in ("ra", "ar", "xa", "ax") or not m["modelled"] or m["name"] not in specs:
+        if m["admin"] or m["sig"] is None or "a" not in m["sig"]:
             continue
         n = m["name"]
+        if m["sig"] not in ("ra", "ar", "xa", "ax", "xxa"):
+            skipped[n] = "operand kinds `%s`: no generated address theorem for this shape" % m["sig"]
+            continue
+        if not m["modelled"] or n not in specs:
+            skipped[n] = "not modelled / no Spec entry"
+            continue
         guard = avx_guard(g, n)
         isx = "x" in m["sig"]
+        three = m["sig"] == "xxa"
         rfun = "Xn" if isx else "Rn"
         rfin = "X" if isx else "R"
-        pred = "AddrOkX" if isx else "AddrOkR"
-        if m["sig"][0] == "a":
+        pred = "AddrOkXX" if three else ("AddrOkX" if isx else "AddrOkR")
+        if three:
+            call = lambda r: "%s %s a" % (ident(n), r)
+            spec = lambda r, q: "Spec.%s %s %s" % (n, r, q)
+            mfun = ident(n)
+            sfun = "Spec.%s" % n
+        elif m["sig"][0] == "a":
             call = lambda r: "%s a %s" % (ident(n), r)
             spec = lambda r, q: "Spec.%s %s %s" % (n, q, r)
             mfun = "(fun r a => %s a r)" % ident(n)
@@ -1084,40 +1098,83 @@ def gen_addr_theorems(g, methods, specs, nmods=13):
             sfun = "Spec.%s" % n
         gfun = {"true": "(fun _ => true)", "avx": "(fun avx => avx)", "!avx": "(fun avx => !avx)"}[guard]
         gexp = {"true": "true", "avx": "avx", "!avx": "(!avx)"}[guard]
-        split = "intro avx; addr_split" if guard == "true" else "intro avx; cases avx <;> addr_split"
+        # `cases avx` yields the goals for false, true in this order; kernel_rfl is only checked by the kernel at the end of
+        # the theorem, so the right tactic per case is named here instead of tried
+        split = {"true": "intro avx; addr_fast avx",
+                 "avx": "intro avx; cases avx with | false => addr_refused | true => addr_fast true",
+                 "!avx": "intro avx; cases avx with | false => addr_fast false | true => addr_refused"}[guard]
         leaf = lambda r: "AddrLeaf (fun a => enc avx (%s)) (fun req => want (%s)) %s" % (call(r), spec(r, "req"), gexp)
+        holes = " ".join(["?_"] * 16)
         txt = []
-        txt.append("/-- `%s`, relative to the ModRM interface: for both `has_avx2` values, all 16 registers, every `Address` shape "
+        regs_doc = "all 16 × 16 register pairs" if three else "all 16 registers"
+        txt.append("/-- `%s`, relative to the ModRM interface: for both `has_avx2` values, %s, every `Address` shape "
                    "(REX.X/REX.B, 1-6 bytes, arbitrary byte values) and every memory operand the reference decoder reads those "
-                   "address bytes as, the method's bytes decode to exactly `Spec.%s` with that operand (guard `%s`; refused otherwise). -/" % (n, n, guard))
+                   "address bytes as, the method's bytes decode to exactly `Spec.%s` with that operand and nothing is left over "
+                   "(guard `%s`; refused otherwise). -/" % (n, regs_doc, n, guard))
         txt.append("theorem %s_addr : %s %s %s %s := by" % (n, pred, mfun, sfun, gfun))
-        txt.append("  intro avx dest")
-        txt.append("  revert avx")
-        txt.append("  refine forall_fin16 (p := fun d => ∀ (avx : Bool) (rx rb : Bool) (len : Fin 6),")
-        txt.append("    %s (d %% 8) rx rb (len.val + 1))" % leaf("(%s d)" % rfun))
-        txt.append("    ?_ ?_ ?_ ?_ ?_ ?_ ?_ ?_ ?_ ?_ ?_ ?_ ?_ ?_ ?_ ?_ dest")
-        txt.append("  all_goals (%s)" % split)
+        if three:
+            txt.append("  intro avx dest lhs")
+            txt.append("  revert avx lhs")
+            txt.append("  refine forall_fin16 (p := fun d => ∀ (avx : Bool) (lhs : Fin 16) (rx rb : Bool) (len : Fin 6),")
+            txt.append("    %s (d %% 8) rx rb (len.val + 1))" % leaf("(Xn d) (X lhs)"))
+            txt.append("    %s dest" % holes)
+            txt.append("  all_goals")
+            txt.append("    intro avx lhs")
+            txt.append("    revert avx")
+            txt.append("    refine forall_fin16 (p := fun l => ∀ (avx : Bool) (rx rb : Bool) (len : Fin 6),")
+            txt.append("      %s (_ %% 8) rx rb (len.val + 1))" % leaf("(Xn _) (Xn l)"))
+            txt.append("      %s lhs" % holes)
+            txt.append("  all_goals (%s)" % split)
+        else:
+            txt.append("  intro avx dest")
+            txt.append("  revert avx")
+            txt.append("  refine forall_fin16 (p := fun d => ∀ (avx : Bool) (rx rb : Bool) (len : Fin 6),")
+            txt.append("    %s (d %% 8) rx rb (len.val + 1))" % leaf("(%s d)" % rfun))
+            txt.append("    %s dest" % holes)
+            txt.append("  all_goals (%s)" % split)
         txt.append("")
-        e = "(fun a => enc avx (%s))" % call("(%s dest)" % rfin)
-        w = "(fun req => want (%s))" % spec("(%s dest)" % rfin, "req")
-        hl = "(fun rx rb len => %s_addr avx dest rx rb len)" % n
+        if three:
+            rargs = "(X dest) (X lhs)"
+            binders = "(avx : Bool) (dest lhs : Fin 16)"
+            hl = "(fun rx rb len => %s_addr avx dest lhs rx rb len)" % n
+            inst = "9 3"
+        else:
+            rargs = "(%s dest)" % rfin
+            binders = "(avx : Bool) (dest : Fin 16)"
+            hl = "(fun rx rb len => %s_addr avx dest rx rb len)" % n
+            inst = "9"
+        e = "(fun a => enc avx (%s))" % call(rargs)
+        w = "(fun req => want (%s))" % spec(rargs, "req")
         reg = "⟨dest.val % 8, by omega⟩"
-        txt.append("/-- `%s` with `Address::offset`: every register, every base (incl. rsp/r12/rbp/r13), **every** i32 displacement. -/" % n)
-        txt.append("theorem %s_offset_ok (avx : Bool) (dest base : Fin 16) (disp : Int32) :" % n)
+        every = "every register" + (" pair" if three else "")
+        tail = ("guard `%s` ⇒ the bytes decode to exactly the Spec entry with nothing left over; otherwise the call is refused" % guard)
+        txt.append("/-- `%s` with `Address::offset`: %s, every base (incl. rsp/r12/rbp/r13), **every** i32 displacement: %s. -/" % (n, every, tail))
+        txt.append("theorem %s_offset_ok %s (base : Fin 16) (disp : Int32) :" % (n, binders))
         txt.append("    MethodOk %s %s %s (Address.offset (R base) disp) (.off (R base) disp) :=" % (e, w, gexp))
         txt.append("  leaf_offset %s base disp %s" % (reg, hl))
         txt.append("")
-        txt.append("/-- `%s` with `Address::index`: every register, every index but rsp, every scale, **every** i32 displacement. -/" % n)
-        txt.append("theorem %s_index_ok (avx : Bool) (dest index : Fin 16) (hi : index.val ≠ 4) (scale : Fin 4) (disp : Int32) :" % n)
+        txt.append("/-- `%s` with `Address::index`: %s, every index but rsp (refused by the constructor), every scale, **every** i32 displacement: %s. -/" % (n, every, tail))
+        txt.append("theorem %s_index_ok %s (index : Fin 16) (hi : index.val ≠ 4) (scale : Fin 4) (disp : Int32) :" % (n, binders))
         txt.append("    MethodOk %s %s %s (Address.index (R index) (Sn scale.val) disp) (.idx (R index) (Sn scale.val) disp) :=" % (e, w, gexp))
         txt.append("  leaf_index %s index hi scale disp %s" % (reg, hl))
         txt.append("")
-        txt.append("/-- `%s` with `Address::rip`: every register, **every** i32 displacement. -/" % n)
-        txt.append("theorem %s_rip_ok (avx : Bool) (dest : Fin 16) (disp : Int32) :" % n)
+        txt.append("/-- `%s` with `Address::array`: %s, every base, every index but rsp/r12 (refused by the constructor), every scale, **every** i32 displacement: %s. -/" % (n, every, tail))
+        txt.append("theorem %s_array_ok %s (base index : Fin 16) (hi : index.val ≠ 4 ∧ index.val ≠ 12) (scale : Fin 4) (disp : Int32) :" % (n, binders))
+        txt.append("    MethodOk %s %s %s (Address.array (R base) (R index) (Sn scale.val) disp) (.arr (R base) (R index) (Sn scale.val) disp) :=" % (e, w, gexp))
+        txt.append("  leaf_array %s base index hi scale disp %s" % (reg, hl))
+        txt.append("")
+        txt.append("/-- `%s` with `Address::rip`: %s, **every** i32 displacement: %s. -/" % (n, every, tail))
+        txt.append("theorem %s_rip_ok %s (disp : Int32) :" % (n, binders))
         txt.append("    MethodOk %s %s %s (Address.rip disp) (.rip disp) :=" % (e, w, gexp))
         txt.append("  leaf_rip %s disp %s" % (reg, hl))
         txt.append("")
-        items.append((n, "\n".join(txt), 2 if guard != "true" else 1))
+        # one instance each (the hypotheses are satisfiable): r9 / xmm9 with -129(%r12) and with 0(%r13,%r9,4)
+        okavx = {"true": "false", "avx": "true", "!avx": "false"}[guard]
+        txt.append("example := (%s_offset_ok %s %s 12 (-129)).1 rfl" % (n, okavx, inst))
+        txt.append("example := (%s_array_ok %s %s 13 9 (by decide) 2 0).1 rfl" % (n, okavx, inst))
+        txt.append("")
+        cost = 70 if three else 4
+        items.append((n, "\n".join(txt), cost))
     mods = [[] for _ in range(nmods)]
     load = [0] * nmods
     for n, t, c in sorted(items, key=lambda x: (-x[2], x[0])):
@@ -1126,18 +1183,18 @@ def gen_addr_theorems(g, methods, specs, nmods=13):
         load[i] += c
     files = {}
     for i, ms in enumerate(mods):
-        body = ["import DoraModel.X64.Interface",
+        body = ["import DoraModel.X64.ArrayFinal",
                 "/-! GENERATED by tools/rs2lean_x64.py from dora-asm/src/x64.rs — do not edit.",
-                "Per-method theorems of the methods that take one register and one `Address` (C07, sentence 1). -/",
+                "Per-method theorems of the methods that take register operands and one `Address` (C07, sentence 1). -/",
                 "set_option Elab.async false", "set_option maxRecDepth 4000", "set_option maxHeartbeats 8000000",
                 "namespace Dora.X64.C07", "open Dora.X64 Dora.X64.Dec", ""]
         names = []
         for n, t in sorted(ms):
             body.append(t)
-            names += ["Dora.X64.C07.%s_%s" % (n, k) for k in ("addr", "offset_ok", "index_ok", "rip_ok")]
+            names += ["Dora.X64.C07.%s_%s" % (n, k) for k in ("addr", "offset_ok", "index_ok", "array_ok", "rip_ok")]
         body.append("end Dora.X64.C07")
         files["X64Addr%d" % i] = ("\n".join(body) + "\n", names)
-    return files
+    return files, skipped
 
 
 def write_if_changed(path, text):
@@ -1191,8 +1248,10 @@ def main(argv):
             changed.append("Gen/%s.lean" % mod)
         thm_names["DoraModel.Gen." + mod] = names
     addr_names = {}
-    if os.path.exists(os.path.join(lean, "DoraModel/X64/Interface.lean")):
-        for mod, (txt, names) in gen_addr_theorems(g, methods, specs).items():
+    addr_skipped = {}
+    if os.path.exists(os.path.join(lean, "DoraModel/X64/ArrayFinal.lean")):
+        addr_files, addr_skipped = gen_addr_theorems(g, methods, specs)
+        for mod, (txt, names) in addr_files.items():
             if write_if_changed(os.path.join(lean, "DoraModel/Gen/%s.lean" % mod), txt):
                 changed.append("Gen/%s.lean" % mod)
             addr_names["DoraModel.Gen." + mod] = names
@@ -1207,6 +1266,7 @@ def main(argv):
         unspecified=[m["name"] for m in methods if not m["admin"] and m["sig"] is not None and m["name"] not in specs],
         theorem_modules=thm_names,
         addr_theorem_modules=addr_names,
+        addr_skipped=addr_skipped,
         changed=changed)
     if report:
         with open(report, "w") as f:
